@@ -59,3 +59,143 @@ Definition rl_step (st : rl_state) (o : list Z) : rl_state * list Z :=
   | [5%Z] => let '(s1, _) := run_call st CCloseAll in (s1, [0%Z; 0%Z])
   | _ => (st, [(-1)%Z])
   end.
+
+(* ------------------------------------------------------------------------------------------------------------
+   Lock-step wrapper (stream "rgl", sid 171).  The real Manager runs under the cooperative scheduler with yield
+   points placed in manager.go between its shared accesses; after every scheduler step the harness reports the yield
+   point the thread parked at (or its result) and the visible registry state, and this wrapper must reach the same
+   point and state by stepping the SAME thread of RegistryLts.  pc_point maps a program counter to the yield point
+   at which the real thread is parked when the model is at that pc; program counters with no yield point of their
+   own (local steps under a lock that is already held, the second half of an instance's Close) map to -1 and are
+   run through in the same wrapper step.  sync.Map.Range's visiting order is the real run's: the key the callback
+   was entered for is the hint of the step; keys of the Range's ghost todo list that have meanwhile left the map
+   are skipped first (the model's skip step), which is the schedule of the LTS that the real Range corresponds to. *)
+Record rgl_state := mkRgl { g_s : state; g_seen : list iid }.
+
+Definition rgl_init (_ : list Z) : rgl_state := mkRgl init [].
+
+Definition pc_point (p : pc) : Z :=
+  match p with
+  | Idle => (-5)
+  | GLoad _ _ _ _ => 0 | GRLock _ _ _ _ => 411 | GRead _ _ _ _ => (-1) | GRUnlock _ _ _ _ _ => 413
+  | CNew _ _ _ => 414 | CLoS _ _ _ => 415 | CCloseBad _ _ _ => 417 | CCloseBadFin _ _ _ => (-1)
+  | CCloseLoser _ _ _ _ => 416 | CCloseLoserFin _ _ _ _ => (-1)
+  | RgStart _ _ => 0 | RgLock _ _ => 421 | RgCheck _ _ => 422 | RgWrite _ _ => (-1) | RgUnlock _ _ => 424
+  | RmLock _ => 0 | RmDel _ => 431 | RmUnlock _ => (-1) | RmLAD _ => 433 | RmClose _ _ => 434 | RmCloseFin _ _ => (-1)
+  | CAStart => 0 | CARange _ _ => (-1) | CAClose _ _ _ _ => 440 | CACloseFin _ _ _ _ => (-1) | CADelete _ _ _ _ => 401
+  | Done _ _ => (-2)
+  end%Z.
+
+(* skip every todo key that is no longer in the map *)
+Fixpoint skip_absent (s : state) (t : tid) (ks : list name) : state :=
+  match ks with
+  | [] => s
+  | n :: r =>
+      match lookup n (caches s) with
+      | Some _ => skip_absent s t r
+      | None => match step s (LStep t (S n)) with Some s1 => skip_absent s1 t r | None => skip_absent s t r end
+      end
+  end.
+
+(* run thread t through its transient program counters; hint = S key for the Range callback entered, 0 = none.
+   err: 0 fine, 7 = the real Range ended although a todo key is (again) in the map and was not visited — allowed by
+   sync.Map's contract for a key deleted and re-stored during the Range, not expressible in the LTS *)
+Fixpoint run_transient (fuel : nat) (s : state) (t : tid) (hint : nat) : state * Z :=
+  match fuel with
+  | O => (s, 9%Z)
+  | S f =>
+      match thr s t with
+      | CARange todo _ =>
+          let s1 := skip_absent s t todo in
+          match step s1 (LStep t hint) with
+          | Some s2 => run_transient f s2 t O
+          | None => (s1, if Nat.eqb hint 0 then 7%Z else 8%Z)
+          end
+      | p => if Z.eqb (pc_point p) (-1)
+             then match step s (LStep t O) with Some s1 => run_transient f s1 t hint | None => (s, 8%Z) end
+             else (s, 0%Z)
+      end
+  end.
+
+Definition rgl_number (seen : list iid) (i : iid) : list iid * Z :=
+  match index_of i seen 1 with
+  | Some k => (seen, Z.of_nat k)
+  | None => (seen ++ [i], Z.of_nat (S (length seen)))
+  end.
+
+Definition res_code (x : res) : Z :=
+  match x with ROk _ => 0 | RNil => 0 | EExists => 1 | ENotReg => 2 | EMismatch => 3 | EInvalid => 4 end%Z.
+
+Definition reg_code (r : option reg) : Z :=
+  match r with None => 0 | Some rg => match r_ty rg with None => 1 | Some t => Z.of_nat (2 + t) end end%Z.
+
+Definition lock_code (m : rwlock) : Z :=
+  match rw_w m with Some _ => 2 | None => match rw_r m with [] => 0 | _ => 1 end end%Z.
+
+Definition rgl_names : list name := [0; 1; 2].
+
+Fixpoint number_caches (s : state) (seen : list iid) (ns : list name) : list iid * list Z :=
+  match ns with
+  | [] => (seen, [])
+  | n :: r =>
+      match lookup n (caches s) with
+      | None => let '(sn, o) := number_caches s seen r in (sn, 0%Z :: o)
+      | Some i => let '(sn1, k) := rgl_number seen i in
+                  let '(sn, o) := number_caches s sn1 r in (sn, k :: o)
+      end
+  end.
+
+Definition rgl_dump (st : rgl_state) (head : list Z) (resi : option iid) : rgl_state * list Z :=
+  let s := g_s st in
+  let '(seen1, hd) := match resi with
+                      | Some i => let '(sn, k) := rgl_number (g_seen st) i in (sn, head ++ [k])
+                      | None => (g_seen st, head)
+                      end in
+  let '(seen2, cs) := number_caches s seen1 rgl_names in
+  (mkRgl s seen2,
+   hd ++ cs ++ map (fun n => reg_code (regs s n)) rgl_names ++ [lock_code (mu s)]
+      ++ map (fun i => match i_st (insts s i) with Closed => 1%Z | _ => 0%Z end) seen2).
+
+Definition rgl_call (o : list Z) : option call :=
+  match o with
+  | [1%Z; n; t; valid] => Some (if Z.eqb t 0 then CReg (Z.to_nat n) (zb valid) else CRegT (Z.to_nat t) (Z.to_nat n) (zb valid))
+  | [2%Z; n; t] => Some (CGet (Z.to_nat t) (Z.to_nat n))
+  | [3%Z; n; t; valid] => Some (CGetCfg (Z.to_nat t) (Z.to_nat n) (zb valid))
+  | [4%Z; n] => Some (CRemove (Z.to_nat n))
+  | [5%Z] => Some CCloseAll
+  | _ => None
+  end.
+
+Definition rgl_step (st : rgl_state) (o : list Z) : rgl_state * list Z :=
+  match o with
+  | 10%Z :: c =>                                   (* spawn a caller; it parks before its first shared access *)
+      match rgl_call c with
+      | Some cl => let s1 := spawn (g_s st) cl in
+                   (mkRgl s1 (g_seen st), [Z.of_nat (nthr (g_s st)); pc_point (thr s1 (nthr (g_s st)))])
+      | None => (st, [(-9)%Z])
+      end
+  | [11%Z; t; hint] =>                             (* one scheduler step of thread t *)
+      let t := Z.to_nat t in
+      let s := g_s st in
+      let first :=
+        match thr s t with
+        | CARange _ _ => Some s
+        | _ => step s (LStep t O)
+        end in
+      match first with
+      | None => (st, [(-3)%Z])                     (* the model says this thread is blocked (or finished) *)
+      | Some s1 =>
+          let '(s2, e) := run_transient 12 s1 t (Z.to_nat hint) in
+          if Z.eqb e 0 then
+            match thr s2 t with
+            | Done _ x =>
+                match x with
+                | ROk i => rgl_dump (mkRgl s2 (g_seen st)) [(-1)%Z; res_code x] (Some i)
+                | _ => rgl_dump (mkRgl s2 (g_seen st)) [(-1)%Z; res_code x; 0%Z] None
+                end
+            | p => rgl_dump (mkRgl s2 (g_seen st)) [pc_point p] None
+            end
+          else (mkRgl s2 (g_seen st), [(-4)%Z; e])
+      end
+  | _ => (st, [(-9)%Z])
+  end.
